@@ -33,17 +33,28 @@ THEOREMS = {
     'C20_missing_fatal': 'a document without \\bibdata, or without \\bibstyle, is a fatal error (raised, not reported); with both it parses',
     'C20_terminates_acyclic': 'fuel >= inclusion depth suffices: for acyclic inclusion the parse never runs out of fuel and its result does not depend on the fuel; a topological order of the files bounds the depth by the number of files + 1',
     'C20_no_internal_error': 'on every file system, cyclic or not, the parser never dereferences a missing context (no AttributeError) and returns with a context set',
+    'C20_case_mismatch_unicode': '"two different spellings of a key" is str.lower() of the interpreter on whole strings (lowerPy), not ASCII: E-acute / e-acute, Cyrillic De, Kelvin sign / k are one key, sharp s / SS are not; final sigma and U+0130 follow the string-level rules',
+    'C20_missing_include': 'the non-closed case: the first \\@input (reading order, any depth) whose file cannot be opened ends the parse in the pybtex I/O error naming that file, with exactly the reports of the events read before it; the name is absent from the file system; with nothing missing this unfolding is the complete one',
+    'C20_engine_consumes': 'Engine.make_bibliography hands format_from_files exactly the denotation: first \\bibdata names + reader suffix, first \\bibstyle (or the explicit style), the citations in reading order with repeats; a fatal problem of the document is raised unchanged',
 }
 RULE = ('ES: every top-level document of <=4 (quick) / <=5 (thorough) lines over a 13-line alphabet with a fixed two-level '
         'chain of nested files; every nested file of <=3 / <=4 lines inside 3 fixed frames; every third-level file of <=2 / <=3 lines; '
         'every string of <=4 / <=5 tokens for the matcher alone; plus seeded random trees of 1-4 files (acyclic, diamond inclusion, '
-        'occasionally a missing file) over a richer line pool incl. a malformed stream; non-trivial = at least one command line '
+        'occasionally a missing file) over a richer line pool incl. a malformed stream; every document of <=3 / <=4 lines over an '
+        'alphabet of citation lines with non-ASCII cased keys (E-acute, Cyrillic, Kelvin sign, sharp s / SS, dz digraphs, capital sigma in final / non-final position, U+0130); every document '
+        'of <=3 / <=4 lines over a latin-1 alphabet written and read in each of None / utf-8 / latin-1 / utf-16 / utf-8-sig; directory '
+        'layouts (top file dir/t.aux or a/b/t.aux with the current directory elsewhere, includes in the current directory and in '
+        'sub/, decoys next to the including file); Engine.make_bibliography with a recording format_from_files on every top-level '
+        'document of <=3 / <=4 lines and on a quarter of the random cases; non-trivial = at least one command line '
         'is read and (>=2 citation keys or a report or a nested file)')
-TRUSTED = ['str.lower is ASCII in the model (keys are drawn from ASCII letters, digits, symbols)',
-           'text-mode file iteration yields the lines written (lines contain no \\n or \\r); the last line with or without a newline',
+TRUSTED = ['str.lower is the whole-string model lowerPy of Model/UniCase.lean (per-character table, multi-character forms, final-sigma rule; tables regenerated from the running interpreter on every run)',
+           'text-mode file iteration yields the lines written (lines contain no \\n or \\r); the last line with or without a newline; '
+           'codecs utf-8 / latin-1 / utf-16 / utf-8-sig decode what they encoded (files are written in the encoding they are read with)',
            'a name the file system does not have fails with ENOENT "No such file or directory" (kpsewhich absent or unsuccessful)',
            'the model is the parse under errors.capture(); strict / non-strict reporting is C16']
-ASSUMPTIONS = ['file names are relative to the current directory, acyclic inclusion (a file including itself recurses until Python gives up)',
+ASSUMPTIONS = ['file names are relative to the current directory (also those of \\@input lines inside files of subdirectories), acyclic inclusion (a file including itself recurses until Python gives up)',
+               'every file decodes in the encoding handed to parse_file (undecodable bytes raise UnicodeDecodeError, a non-pybtex exception: outside the statement of C20, which is about .aux DOCUMENTS; reported to the coordinator)',
+               'an \\@input names a file of the case or a plain name absent from the current directory (directories and paths through files fail with another errno)',
                'AuxDataError as repaired by proposed_fixes/C20-1.diff and C20-2.diff']
 
 # ---------------------------------------------------------------------------------------------
@@ -92,7 +103,7 @@ def _render(e):
     """What the error object says about itself NOW (after parsing has returned)."""
     from pybtex import errors
     from pybtex.exceptions import PybtexError
-    rec = {'kind': _kind(e)}
+    rec = {'kind': _kind(e), 'pybtex': isinstance(e, PybtexError)}
     if not isinstance(e, PybtexError):
         rec.update({'file': None, 'lineno': None, 'str': None, 'ctx': None, 'msg': None, 'format': None})
         return rec
@@ -128,31 +139,69 @@ def _scratch_base():
 _BASE = _scratch_base()
 
 
+_PROBE = []
+
+
+def _probe_engine():
+    """An Engine whose format_from_files only records what make_bibliography hands to it (the fourth anchor:
+    `Engine.make_bibliography consumes style / data / citations`)."""
+    if not _PROBE:
+        from pybtex import Engine
+
+        class Probe(Engine):
+            def __init__(self):
+                self.seen = None
+
+            def format_from_files(self, bib_filenames, style=None, citations=None, **kwargs):
+                self.seen = {'bib_filenames': list(bib_filenames), 'style': style,
+                             'citations': list(citations) if citations is not None else None}
+                return ''
+        _PROBE.append(Probe)
+    return _PROBE[0]()
+
+
 def _impl_aux(case):
+    """The files are written under their names relative to a fresh directory, in the encoding `fenc` (default UTF-8); that
+    directory becomes the current one; `top` (possibly `dir/t.aux`) is handed to parse_file with `encoding=enc` when the case
+    has the key `enc` -- or, in mode `engine`, to Engine.make_bibliography(top, output_encoding=enc)."""
     from pybtex import auxfile, errors
     d = tempfile.mkdtemp(prefix='verif-c20-', dir=_BASE)
     real = os.path.realpath(d)
     assert not real.startswith('/repo') and not real.startswith(compat.VERIF + os.sep), real
     cwd = os.getcwd()
+    fenc = case.get('fenc', 'utf-8')
     try:
         seen = set()
         for name, lines in case['files']:
             if name in seen:
                 continue
             seen.add(name)
-            with open(os.path.join(d, name), 'w', encoding='utf-8', newline='') as f:
+            path = os.path.join(d, *name.split('/'))
+            if '/' in name:
+                os.makedirs(os.path.dirname(path), exist_ok=True)
+            with open(path, 'w', encoding=fenc, newline='') as f:
                 f.write(_content(lines, case.get('nl', True)))
         os.chdir(d)
         data = None
         fatal = None
+        engine = _probe_engine() if case.get('mode') == 'engine' else None
         with errors.capture() as errs:
             try:
-                data = auxfile.parse_file(case['top'])
+                if engine is not None:
+                    engine.make_bibliography(case['top'], output_encoding=case.get('enc'))
+                elif 'enc' in case:
+                    data = auxfile.parse_file(case['top'], case['enc'])
+                else:
+                    data = auxfile.parse_file(case['top'])
             except Exception as e:
                 fatal = e
         # parsing is over: only now look at the errors
         out = {'errors': [_render(e) for e in errs], 'fatal': _render(fatal) if fatal is not None else None}
-        if data is not None:
+        if engine is not None:
+            seen_args = engine.seen if fatal is None else None
+            out.update({'citations': seen_args and seen_args['citations'], 'style': seen_args and seen_args['style'], 'data': None,
+                        'bib_filenames': seen_args and seen_args['bib_filenames']})
+        elif data is not None:
             out.update({'citations': list(data.citations), 'style': data.style,
                         'data': list(data.data) if data.data is not None else None})
         else:
@@ -177,6 +226,13 @@ def impl(case):
 
 
 def to_request(case):
+    if case['op'] == 'aux':
+        # encodings, directories and the current directory are the harness's business: the model sees the decoded lines of
+        # every file under the name by which parse_file / \\@input refer to it
+        req = {'op': 'aux', 'top': case['top'], 'files': case['files']}
+        if case.get('mode') == 'engine':
+            req['mode'] = 'engine'
+        return req
     return case
 
 
@@ -190,7 +246,12 @@ def model_out(case, reply):
             return None
         r = dict(r)
         r['format'] = _expected_format(r['file'], r['ctx'], r['str']) if r['str'] is not None else None
+        r['pybtex'] = True      # every problem of the model is an AuxDataError or the I/O PybtexError
         return r
+    if case.get('mode') == 'engine':
+        eng = reply['engine']
+        return {'citations': eng['citations'], 'style': eng['style'], 'data': None, 'bib_filenames': eng['bib_filenames'],
+                'errors': [fix(r) for r in out['errors']], 'fatal': fix(out['fatal'])}
     return {'citations': out['citations'], 'style': out['style'], 'data': out['data'],
             'errors': [fix(r) for r in out['errors']], 'fatal': fix(out['fatal'])}
 
@@ -229,6 +290,10 @@ def oracle(case, impl_out, reply):
     fatal = impl_out['fatal']
     # every problem is a pybtex error that can be shown
     for rec in impl_out['errors'] + ([fatal] if fatal else []):
+        if not rec.get('pybtex') and not _internal(rec):
+            fails.append('%s: the %s problem is not a pybtex error (not an instance of pybtex.exceptions.PybtexError)' % (
+                'missing_fatal' if rec is fatal else 'located', rec['kind']))
+            break
         bad = _internal(rec)
         if bad:
             fails.append('located: the %s error cannot be rendered after parsing: %s' % (
@@ -236,29 +301,53 @@ def oracle(case, impl_out, reply):
             break
     if not spec['acyclic']:
         return fails      # outside the property (inclusion cycle); never generated
+    how = _how(case)
     if not spec['closed']:
-        # an included file does not exist: not a clause of C20 beyond "a pybtex error, not a crash";
-        # what was reported before the parse stopped must still be right (the spec reads on past the missing file)
+        # an included file does not exist: not a clause of C20 beyond "a pybtex error, not a crash" (it must name the file);
+        # what the events read before the parse stopped cause must have been reported, where it occurs
+        # (spec: eventsUntilMissing, theorem C20_missing_include)
         if fatal is None or fatal['kind'] != 'open':
-            fails.append('missing_file: an \\@input file that cannot be opened must end in a pybtex I/O error, got %r' % (fatal,))
-        fails += _check_reports(case, impl_out['errors'], spec['errors'], spec['cites'], partial=True)
+            fails.append('missing_file: an \\@input file that cannot be opened must end in a pybtex I/O error, got %r%s' % (fatal, how))
+        elif spec['missing'] is not None and not (fatal.get('msg') or '').startswith('unable to open %s. ' % spec['missing']):
+            fails.append('missing_file: the file that cannot be opened is %r, the error says %r%s' % (spec['missing'], fatal.get('msg'), how))
+        fails += _check_reports(case, impl_out['errors'], spec['errors_until_missing'], spec['cites_until_missing'])
         return fails
-    # fatal errors
+    # fatal errors: "a file without \bibdata or \bibstyle is a fatal pybtex error" -- which of the two is named when both are
+    # missing is not part of the statement
     if spec['fatal'] is not None:
-        if fatal is None or fatal['kind'] != spec['fatal']:
-            fails.append('missing_fatal: expected the fatal error %s, got %r' % (spec['fatal'], fatal and fatal['kind']))
+        allowed = [k for k, v in (('no_bibdata', spec['data']), ('no_bibstyle', spec['style'])) if v is None]
+        if fatal is None or fatal['kind'] not in allowed:
+            fails.append('missing_fatal: expected a fatal error %s, got %r%s' % (' or '.join(allowed), fatal and (fatal['kind'], fatal.get('msg')), how))
     elif fatal is not None:
-        fails.append('missing_fatal: \\bibdata and \\bibstyle are present but parse_file raised %r (%r)' % (fatal['kind'], fatal.get('msg')))
+        fails.append('missing_fatal: \\bibdata and \\bibstyle are present but %s raised %r (%r)%s' % (
+            'make_bibliography' if case.get('mode') == 'engine' else 'parse_file', fatal['kind'], fatal.get('msg'), how))
     # the values
     if fatal is None:
         if impl_out['citations'] != spec['citations']:
-            fails.append('citations: got %r, the \\citation lines say %r' % (impl_out['citations'], spec['citations']))
-        if impl_out['style'] != spec['style'] or impl_out['data'] != spec['data']:
-            fails.append('style_data: got style=%r data=%r, first \\bibstyle / \\bibdata are %r / %r' % (
-                impl_out['style'], impl_out['data'], spec['style'], spec['data']))
+            fails.append('citations: got %r, the \\citation lines say %r%s' % (impl_out['citations'], spec['citations'], how))
+        if case.get('mode') == 'engine':
+            want_files = [x + '.bib' for x in spec['data']] if spec['data'] is not None else None
+            if impl_out['style'] != spec['style'] or impl_out.get('bib_filenames') != want_files:
+                fails.append('engine_consumes: make_bibliography called format_from_files with style=%r bib_filenames=%r, first \\bibstyle / '
+                             '\\bibdata give %r / %r%s' % (impl_out['style'], impl_out.get('bib_filenames'), spec['style'], want_files, how))
+        elif impl_out['style'] != spec['style'] or impl_out['data'] != spec['data']:
+            fails.append('style_data: got style=%r data=%r, first \\bibstyle / \\bibdata are %r / %r%s' % (
+                impl_out['style'], impl_out['data'], spec['style'], spec['data'], how))
     # the reports: which, and where
     fails += _check_reports(case, impl_out['errors'], spec['errors'], spec['cites'])
     return fails
+
+
+def _how(case):
+    """How the document was presented, for the failure texts (the denotation does not depend on it)."""
+    bits = []
+    if 'enc' in case or 'fenc' in case:
+        bits.append('files written in %s, read with encoding=%r' % (case.get('fenc', 'utf-8'), case.get('enc')))
+    if any('/' in n for n, _ls in case['files']):
+        bits.append('top file %r, \\@input names are relative to the current directory' % case['top'])
+    if case.get('mode') == 'engine':
+        bits.append('through Engine.make_bibliography')
+    return ' [%s]' % '; '.join(bits) if bits else ''
 
 
 def _loc(r):
@@ -292,8 +381,9 @@ def _check_reports(case, errors, spec_errors, cites, partial=False):
                 clause = 'context_after_input' if _after_input(case, w['file'], w['lineno']) else 'located'
                 fails.append('%s: the %s problem occurs at (file, line, text) = %r but the error shows %r' % (clause, w['kind'], there, _loc(r)))
                 break
-    # case mismatches
-    occ = [(f, n, t, k) for f, n, t, ks in cites for k in ks]      # citations in reading order
+    # case mismatches; "the same key up to case" = equal lower-case forms as the spec gives them (Model/UniCase.lean `lowerPy`)
+    occ = [(f, n, t, k) for f, n, t, ks, _lo in cites for k in ks]      # citations in reading order
+    low = {k: lk for _f, _n, _t, ks, lo in cites for k, lk in zip(ks, lo)}
     mism = [r for r in errors if r['kind'] == 'case_mismatch']
     for r in mism:
         parts = (r.get('msg') or '')[len(_MISMATCH):].split(' and ')
@@ -308,7 +398,11 @@ def _check_reports(case, errors, spec_errors, cites, partial=False):
             if key == k and (f, n, t or None) == _loc(r) and any(p[3] == k2 for p in occ[:i]):
                 ok = True
                 break
-        if not (k != k2 and k.lower() == k2.lower() and ok):
+        if ok and k in low and k2 in low and low[k] != low[k2]:
+            fails.append('case_mismatch_reported: report %r shown at %r: %r and %r differ by more than case (lower-case forms %r / %r), '
+                         'they are two keys' % (r.get('msg'), _loc(r), k, k2, low[k], low[k2]))
+            return fails
+        if not (k != k2 and k in low and low.get(k) == low.get(k2) and ok):
             here = [(f, n, t) for f, n, t, key in occ if key == k]
             clause = 'context_after_input' if any(_after_input(case, f, n) for f, n, _t in here) else ('located' if here else 'case_mismatch_reported')
             fails.append('%s: report %r shown at %r: not a citation of %r there after an earlier citation of %r (it is cited at %r)' % (
@@ -317,7 +411,7 @@ def _check_reports(case, errors, spec_errors, cites, partial=False):
     first = {}
     done = set()
     for f, n, t, key in ([] if partial else occ):
-        kl = key.lower()
+        kl = low[key]
         if kl not in first:
             first[kl] = key
         elif key != first[kl] and kl not in done:
@@ -392,6 +486,9 @@ def _acyclic(files):
     return all(visit(n) for n in table)
 
 
+ENCODINGS = (None, 'utf-8', 'latin-1', 'utf-16', 'utf-8-sig')
+
+
 def valid_case(case):
     if case.get('op') == 'auxmatch':
         return isinstance(case.get('s'), str)
@@ -400,17 +497,36 @@ def valid_case(case):
     files = case.get('files')
     if not isinstance(files, list) or not files or not isinstance(case.get('top'), str):
         return False
+    if case.get('mode') not in (None, 'engine') or case.get('enc') not in ENCODINGS or case.get('fenc', 'utf-8') not in ENCODINGS[1:]:
+        return False
+    # the files are written in the encoding they are read with (the default is UTF-8)
+    if (case.get('enc') or 'utf-8') != case.get('fenc', 'utf-8'):
+        return False
     names = []
     for f in files:
         if not (isinstance(f, list) and len(f) == 2 and isinstance(f[0], str) and isinstance(f[1], list)):
             return False
-        if not _NAME.match(f[0]):
+        parts = f[0].split('/')
+        if len(parts) > 3 or not all(_NAME.match(x) and x not in ('.', '..') for x in parts):
             return False
         if any((not isinstance(l, str)) or '\n' in l or '\r' in l or '\x00' in l for l in f[1]):
+            return False
+        try:
+            '\n'.join(f[1]).encode(case.get('fenc', 'utf-8'))
+        except UnicodeError:
             return False
         names.append(f[0])
     if len(set(names)) != len(names) or case['top'] not in names:
         return False
+    dirs = {'/'.join(n.split('/')[:i]) for n in names for i in range(1, n.count('/') + 1)}
+    if dirs & set(names):
+        return False          # a name cannot be a file and a directory
+    for _n, lines in files:
+        for v in _inputs(lines):
+            # an \@input names a file of the case, or something that is plainly absent from the current directory
+            # (a directory, or a path through a file, fails with another errno than the model's ENOENT)
+            if v not in names and ('/' in v or v in dirs or v in ('.', '..')):
+                return False
     return _acyclic(files)
 
 
@@ -454,11 +570,116 @@ def _docs(sigma, n):
             yield list(t)
 
 
-def _mk(files, nl=True):
+def _mk(files, nl=True, **extra):
     c = {'op': 'aux', 'top': files[0][0], 'files': [[n, ls] for n, ls in files]}
     if not nl:
         c['nl'] = False
+    c.update(extra)
     return c
+
+
+def _encodable(files, enc):
+    try:
+        for _n, ls in files:
+            '\n'.join(ls).encode(enc)
+        return True
+    except UnicodeError:
+        return False
+
+
+def _enc_variants(files, nl=True, **extra):
+    """The same document written in every encoding that can hold it and read with that encoding (metamorphic: the denotation
+    does not depend on the encoding); `enc` None = the default, files in UTF-8."""
+    out = []
+    for enc in ENCODINGS:
+        fenc = enc or 'utf-8'
+        if _encodable(files, fenc):
+            c = _mk(files, nl, **extra)
+            c['enc'] = enc
+            if fenc != 'utf-8':
+                c['fenc'] = fenc
+            out.append(c)
+    return out
+
+
+# keys outside ASCII: pairs that str.lower() identifies (É/é, Д/д, Kelvin sign/k/K, the three dz digraph forms, ohm sign/Ω/ω,
+# Ÿ/ÿ), pairs only casefold() identifies (ß/SS/ss, micro sign/Greek mu) and latin-1 words
+KEYS_U = ['\u00c9', '\u00e9', '\u0414', '\u0434', '\u212a', 'k', 'K', '\u00df', 'SS', 'ss', '\u01c4', '\u01c5', '\u01c6',
+          '\u2126', '\u03a9', '\u03c9', '\u0178', '\u00ff', '\u00b5', '\u039c', '\u03bc',
+          '\u00c9cole', '\u00e9cole', '\u00c9COLE', 'stra\u00dfe', 'STRASSE', 'Stra\u00dfe', '\u00d1u', '\u00f1U', '\u4e2d',
+          # the string-level rules of str.lower(): final sigma (context dependent) and U+0130 (two characters)
+          '\u039f\u0394\u039f\u03a3', '\u03bf\u03b4\u03bf\u03c2', '\u03bf\u03b4\u03bf\u03c3', '\u03a3', '\u03c3', '\u03c2', 'A\u03a3', 'a\u03c2', 'a\u03c3',
+          '\u03a3a', 'A\u03a3.', 'A.\u03a3', '\u0130', 'i\u0307', 'i', 'I', '\u0130x', 'i\u0307X']
+UNI_ALPHABET = ['\\citation{\u00c9}', '\\citation{\u00e9}', '\\citation{\u0414,\u0434}', '\\citation{\u212a}', '\\citation{k,K}',
+                '\\citation{\u00df,SS}', '\\citation{\u01c5,\u01c6}', '\\citation{A\u03a3,a\u03c2,a\u03c3}', '\\citation{\u0130,i\u0307,i}', '\\bibstyle{pla\u00efn}', '\\bibdata{x,\u00fc}', '\\@input{u.aux}']
+UNI_SUB = ['\\citation{\u00e9,\u01c4}', '\\citation{K}', '\\bibdata{y}']
+L1_ALPHABET = ['\\citation{\u00c9}', '\\citation{\u00e9,\u00c9}', '\\citation{\u00df,SS}', '\\citation{\u00ff,\u00d1u,\u00f1U}',
+               '\\bibstyle{pla\u00efn}', '\\bibdata{x,\u00fc}', '\\@input{u.aux}', '\\relax\u00a0']
+L1_SUB = ['\\citation{\u00e9}', '\\bibstyle{\u00e5}']
+
+
+def unicode_and_encodings(tier):
+    """Exhaustive small documents over citation lines with non-ASCII cased keys (in UTF-8, the default call), and over a
+    latin-1 alphabet in EVERY encoding (None/utf-8/latin-1/utf-16/utf-8-sig; files written in the encoding they are read with)."""
+    cases = []
+    n = 3 if tier == 'quick' else 4
+    for doc in _docs(UNI_ALPHABET, n):
+        files = [(TOP, doc)] + ([(SUB, UNI_SUB)] if UNI_ALPHABET[-1] in doc else [])
+        cases.append(_mk(files, family='unicode'))
+    k = 0
+    for doc in _docs(L1_ALPHABET, n):
+        files = [(TOP, doc)] + ([(SUB, L1_SUB)] if '\\@input{u.aux}' in doc else [])
+        k += 1
+        cases += _enc_variants(files, nl=(k % 5 != 0), family='encoding', **({'mode': 'engine'} if k % 4 == 0 else {}))
+    for doc in _docs(UNI_ALPHABET, n - 1):
+        files = [(TOP, doc)] + ([(SUB, UNI_SUB)] if UNI_ALPHABET[-1] in doc else [])
+        cases += _enc_variants(files, family='encoding')
+    # a line that BEGINS with U+FEFF (as text, not as an encoding signature) is not a command line: a reader that strips a
+    # signature the caller did not ask for (utf-8-sig as the default) would turn it into one
+    for first in ('\ufeff\\citation{bom}', '\ufeff\\bibstyle{bom}', '\ufeff\\bibdata{bom}', '\ufeff\\@input{u.aux}', '\ufeff'):
+        for rest in ([], ['\\bibstyle{plain}', '\\bibdata{x}'], ['\\citation{a}', '\\@input{u.aux}', '\\bibstyle{plain}', '\\bibdata{x}']):
+            files = [(TOP, [first] + rest), (SUB, [first, '\\citation{b}'])]
+            cases += _enc_variants(files[:2 if any('u.aux' in l for l in [first] + rest) else 1], family='encoding-bom')
+    return cases
+
+
+def directories(tier):
+    """Files in subdirectories; a top file given as dir/t.aux while the current directory is elsewhere.  \\@input names are
+    resolved relative to the CURRENT directory (LaTeX writes them that way), not relative to the including file: every layout
+    has a decoy of the included name next to the including file, or has the included file only there (then it is missing)."""
+    bodies = [
+        ([], ['\\bibstyle{plain}', '\\bibdata{x}']),
+        (['\\citation{a}', '\\bibstyle{plain}'], ['\\citation{A}', '\\bibdata{x}', '\\bibdata{y}']),
+        (['\\bibdata{x}'], ['\\citation{b}']),
+    ]
+    real_u = ['\\citation{B,c}', '\\bibstyle{inner}']
+    decoy_u = ['\\citation{DECOY}', '\\bibdata{decoy}', '\\bibstyle{decoy}']
+    cases = []
+    for pre, post in bodies:
+        for d in ('dir', 'a/b'):
+            top = d + '/t.aux'
+            doc = pre + ['\\@input{u.aux}'] + post
+            cases.append(_mk([(top, doc), ('u.aux', real_u), (d + '/u.aux', decoy_u)], family='dirs'))
+            cases.append(_mk([(top, doc), ('u.aux', real_u)], family='dirs'))
+            cases.append(_mk([(top, doc), (d + '/u.aux', decoy_u)], family='dirs'))          # only next to the top file: missing
+            # the include is itself in a subdirectory and includes a file of the current directory
+            doc2 = pre + ['\\@input{sub/u.aux}'] + post
+            sub_u = ['\\citation{c}', '\\@input{v.aux}', '\\citation{C}']
+            cases.append(_mk([(top, doc2), ('sub/u.aux', sub_u), ('v.aux', real_u), ('sub/v.aux', decoy_u), (d + '/v.aux', decoy_u)], family='dirs'))
+            cases.append(_mk([(top, doc2), ('sub/u.aux', sub_u), ('sub/v.aux', decoy_u)], family='dirs'))      # v.aux missing
+            # the include names the directory of the top file explicitly
+            doc3 = pre + ['\\@input{%s/u.aux}' % d] + post
+            cases.append(_mk([(top, doc3), (d + '/u.aux', real_u), ('u.aux', decoy_u)], family='dirs'))
+        # top file in the current directory, includes below it
+        doc4 = pre + ['\\@input{sub/u.aux}', '\\@input{w.aux}'] + post
+        cases.append(_mk([('t.aux', doc4), ('sub/u.aux', ['\\citation{c}', '\\@input{w.aux}']), ('w.aux', real_u), ('sub/w.aux', decoy_u)], family='dirs'))
+    out = []
+    for i, c in enumerate(cases):
+        out.append(c)
+        out.append(dict(c, mode='engine'))
+        if i % 3 == 0:
+            out.append(dict(c, enc='utf-16', fenc='utf-16'))
+    return out
 
 
 def exhaustive(tier):
@@ -524,7 +745,8 @@ KEYS = ['a', 'A', 'b', 'B', 'key', 'Key', 'KEY', 'kEy', 'x1', 'X1', '*', 'a-b', 
 STYLES = ['plain', 'alpha', 'unsrt', 'Plain', '', 'my style', 'a,b']
 DATAS = ['refs', 'a,b', 'x,y,z', '', 'a,,b', ' a , b ', 'Refs']
 OTHER = ['\\relax ', '\\relax', '', ' ', '\\newlabel{sec:1}{{1}{1}}', '\\@writefile{toc}{\\contentsline {section}{\\numberline {1}Intro}{1}}',
-         '% \\citation{hidden}', '\\gdef \\@abspage@last{1}', '\\providecommand\\hyper@newdestlabel[2]{}', '\t\\relax\u00a0']
+         '% \\citation{hidden}', '\\gdef \\@abspage@last{1}', '\\providecommand\\hyper@newdestlabel[2]{}', '\t\\relax\u00a0',
+         '\ufeff\\citation{bom}']
 MALFORMED = ['\\citation', '\\citation{', '\\citation}', '\\Citation{a}', '\\bibstyle {x}', '\\\\citation{a}', 'x\\citation{a}',
              '\\citation{a}}', '\\citation{{a}', '\\@input{', '\\citationx{q}', '\\citation{nobrace', ' \\citation{lead}', '\\bibstylex{plain}',
              '\\bibdata', '\\@input', '\\input{u.aux}', '\\@inputx{u.aux}', '{\\citation{a}}', '\\citation {a}', '\\cite{a}',
@@ -537,7 +759,8 @@ def _random_line(rng, later, malformed):
     if malformed and r < 0.35:
         return rng.choice(MALFORMED)
     if r < 0.40:
-        keys = [rng.choice(KEYS[:16] if rng.random() < 0.9 else KEYS) for _ in range(rng.choice([1, 1, 1, 2, 2, 3, 4]))]
+        pool = KEYS_U if rng.random() < 0.12 else (KEYS[:16] if rng.random() < 0.9 else KEYS)
+        keys = [rng.choice(pool) for _ in range(rng.choice([1, 1, 1, 2, 2, 3, 4]))]
         line = '\\citation{%s}' % ','.join(keys)
     elif r < 0.52:
         line = '\\bibstyle{%s}' % rng.choice(STYLES[:3] if rng.random() < 0.8 else STYLES)
@@ -556,8 +779,22 @@ def _random_line(rng, later, malformed):
     return line
 
 
+PREFIXES = ['', '', '', '', 'dir/', 'sub/', 'a/b/', 'dir/']
+
+
 def _random_case(rng, malformed):
+    for attempt in range(20):
+        case = _random_case1(rng, malformed, dirs_ok=attempt < 3)
+        if valid_case(case):
+            return case
+    raise AssertionError('no valid random case')
+
+
+def _random_case1(rng, malformed, dirs_ok):
     names = [TOP, SUB, SUB2, SUB3][:rng.choice([1, 2, 2, 3, 3, 4])]
+    in_dirs = dirs_ok and rng.random() < 0.15
+    if in_dirs:
+        names = [rng.choice(PREFIXES) + n for n in names]
     files = []
     for i, n in enumerate(names):
         later = names[i + 1:]
@@ -570,7 +807,27 @@ def _random_case(rng, malformed):
                 if rng.random() < 0.85:
                     lines.insert(rng.randint(0, len(lines)), cmd)
         files.append((n, lines))
-    return _mk(files, nl=rng.random() < 0.8)
+    if in_dirs:
+        # decoys: a file of the same base name next to an including file that lives in a subdirectory
+        have = {n for n, _ in files}
+        for n, lines in list(files):
+            if '/' in n:
+                for v in _inputs(lines):
+                    decoy = n.rsplit('/', 1)[0] + '/' + v
+                    if v in have and decoy not in have and decoy.count('/') <= 2 and rng.random() < 0.6:
+                        have.add(decoy)
+                        files.append((decoy, ['\\citation{DECOY}', '\\bibdata{decoy}', '\\bibstyle{decoy}']))
+    extra = {}
+    if rng.random() < 0.25:
+        extra['mode'] = 'engine'
+    case = _mk(files, nl=rng.random() < 0.8, **extra)
+    if rng.random() < 0.25:
+        enc = rng.choice(ENCODINGS)
+        if _encodable(files, enc or 'utf-8'):
+            case['enc'] = enc
+            if enc not in (None, 'utf-8'):
+                case['fenc'] = enc
+    return case
 
 
 def _random_match(rng):
@@ -580,9 +837,23 @@ def _random_match(rng):
 
 def gen_cases(tier, rng, info):
     cases, counts = exhaustive(tier)
+    ue = unicode_and_encodings(tier)
+    counts['unicode keys / encodings'] = len(ue)
+    dr = directories(tier)
+    counts['subdirectories'] = len(dr)
+    # the engine entry point on every short top-level document
+    eng = []
+    sig = alphabet(SUB)
+    for doc in _docs(sig, 3 if tier == 'quick' else 4):
+        files = [(TOP, doc)] + ([(SUB, FIXED_U), (SUB2, FIXED_V)] if sig[8] in doc else [])
+        eng.append(_mk(files, mode='engine'))
+    counts['make_bibliography top<=%d' % (3 if tier == 'quick' else 4)] = len(eng)
+    cases += ue + dr + eng
     info['exhaustive'] = True
-    info['scope'] = 'exhaustive: %r over the 13-line alphabet %r; nested chain %r / %r; frames %r' % (
-        counts, alphabet('<next>'), FIXED_U, FIXED_V, FRAMES)
+    info['scope'] = ('exhaustive: %r over the 13-line alphabet %r; nested chain %r / %r; frames %r; non-ASCII alphabet %r (UTF-8) and latin-1 '
+                     'alphabet %r in the encodings %r; directory layouts: top file dir/t.aux or a/b/t.aux, includes in the current directory, '
+                     'in sub/, with decoys next to the including file') % (
+        counts, alphabet('<next>'), FIXED_U, FIXED_V, FRAMES, UNI_ALPHABET, L1_ALPHABET, ENCODINGS)
     nrand = 6000 if tier == 'quick' else 120000
     for i in range(nrand):
         if i % 10 == 9:
@@ -598,11 +869,16 @@ LEVEL_TEXT = ('Machine-checked proof (Lean 4) that the model of pybtex/auxfile.p
               'first \\bibstyle, first \\bibdata split at commas, all other lines ignored), reports exactly the duplicates and case '
               'mismatches of the specification with the file and line of the causing line (also after returning from a nested file), '
               'raises the fatal errors for missing \\bibdata / \\bibstyle, never dereferences a missing context, and terminates on acyclic '
-              'inclusion independently of the fuel. The model is tied to the code by a correspondence check on real temporary files, '
-              'exhaustive over small documents and nestings and sampled beyond, with errors rendered after parsing has returned.')
+              'inclusion independently of the fuel; "the same key up to case" is str.lower() of the running interpreter (regenerated table), '
+              'a nested file that cannot be opened ends the parse in the I/O error naming it with exactly the reports of what was read before '
+              '(C20_missing_include), and Engine.make_bibliography hands format_from_files exactly the denotation (C20_engine_consumes). '
+              'The model is tied to the code by a correspondence check on real temporary files, '
+              'exhaustive over small documents and nestings and sampled beyond, with errors rendered after parsing has returned; the same '
+              'documents are also written and read in utf-8 / latin-1 / utf-16 / utf-8-sig (the denotation must not depend on the encoding), '
+              'placed in subdirectories with the current directory elsewhere, and read through Engine.make_bibliography.')
 LEVEL_NOTE = ('Trusted: Lean kernel; axioms propext/Classical.choice/Quot.sound only; the hand-written model (Model/AuxFile.lean) corresponds '
               'to pybtex/auxfile.py only as far as the differential check explores; the `re` engine on the one pattern (checked exhaustively '
               'on token strings of length <=5), text-mode line iteration, str.split/str.strip, the OS file API and the missing-file error text are '
-              'modelled or assumed, not verified; str.lower is ASCII in the model. Inclusion cycles are outside the property (Python recurses '
+              'modelled or assumed, not verified; str.lower is the regenerated whole-string model lowerPy (incl. final sigma and U+0130); decoding is done by the harness (the model sees decoded lines), undecodable bytes are outside the property. Inclusion cycles are outside the property (Python recurses '
               'until it fails; the model reports out-of-fuel). Only the capture-mode reporting channel is modelled (modes are C16). '
               'The model follows AuxDataError as repaired by proposed_fixes/C20-1.diff + C20-2.diff.')
